@@ -9,6 +9,7 @@ written `p` or `p/q`; arrays are flat, comma separated, `_` when empty.
 * `woo dimF mf dimM mm n F M minA maxIter qlo qhi thr` → `ok anchors` (`superimpose_without_outliers`,
   inner `superimpose` stubbed by the identity fit)
 * `hom dimF mf nF dimM mm nM Fx Mx FI MI A minA maxIter qlo qhi thr` → `ok fi=… mi=…`
+* `fma LF LM P1;P2;…`  → `ok i,j,…`   (`_find_matching_anchors`: chain lengths, local anchors per chain)
 -/
 namespace BiotiteModel.Driver.C16
 open BiotiteModel BiotiteModel.C16 BiotiteModel.Proto
@@ -182,6 +183,12 @@ def step (_ : Unit) (line : String) : Unit × String :=
             pure s!"fi={showNatsE f1} mi={showNatsE m1}")
         | _, _, _ => "bad-op"
       | _, _, _, _, _, _, _ => "bad-op"
+    | ["fma", lf, lm, ps] =>
+      match parseNats lf, parseNats lm, (ps.splitOn ";").mapM parsePairsNat with
+      | some lf, some lm, some ps =>
+        if ps.length ≠ min lf.length lm.length then "bad-op" else
+        showE ((findMatchingAnchors lf lm ps).map fun r => showNatsE (r.flatMap fun p => [p.1, p.2]))
+      | _, _, _ => "bad-op"
     | _ => "bad-op"
   ((), out)
 
